@@ -261,6 +261,9 @@ class DenseOutput(object):
                 "Expected both t and y_interp to be lists, but got type(t)={}, type(y_interp)={}".format(type(t), type(
                     y_interp)))
         else:
+            if hasattr(y_interp, "t0") and hasattr(y_interp, "t1") and y_interp.t0 == y_interp.t1:
+                # a zero-length piece (a sub-step below the resolution of t) cannot be evaluated and covers nothing
+                return
             try:
                 y_interp(t)
             except:
@@ -273,7 +276,9 @@ class DenseOutput(object):
                     y_interp(self.t_eval[-1])
                 except:
                     raise
-                if (t - self.t_eval[-1]) < 0:
+                # a piece of a backward step goes to the front; the step direction is that of the piece itself (the end time
+                # of a rounding-sized forward sub-step can fall an ulp short of the previous end time)
+                if (y_interp.t1 < y_interp.t0) if hasattr(y_interp, "t1") else (t - self.t_eval[-1]) < 0:
                     self.t_eval.insert(0, D.ar_numpy.asarray(t))
                     self.y_interpolants.insert(0, y_interp)
                 else:
